@@ -177,6 +177,15 @@ func checkNumericTypeChanges(diffs []TypeDiff, type1, type2 *spec.SchemaProps) [
 			diffs = addTypeDiff(diffs, TypeDiff{Change: NarrowedType, Description: fmt.Sprintf("Exclusive Minimum Added:%v->%v", type1.ExclusiveMinimum, type2.ExclusiveMinimum)})
 			foundDiff = true
 		}
+		// enums restrict numbers exactly as they restrict strings
+		switch {
+		case len(type1.Enum) > 0 && len(type2.Enum) > 0:
+			diffs = append(diffs, CompareEnums(type1.Enum, type2.Enum)...)
+		case len(type1.Enum) > 0:
+			diffs = append(diffs, TypeDiff{Change: DeletedConstraint, Description: "Enum"})
+		case len(type2.Enum) > 0:
+			diffs = append(diffs, TypeDiff{Change: AddedConstraint, Description: "Enum"})
+		}
 		if !foundDiff {
 			maxDiffs := CompareFloatValues("Maximum", type1.Maximum, type2.Maximum, WidenedType, NarrowedType)
 			diffs = append(diffs, maxDiffs...)
